@@ -16,12 +16,22 @@ Clause(e) ==
           ELSE IF e.again # e.got THEN "Accessor.stable" ELSE "")
     \* spellings of one type get one answer -- wherever the predicate is asserted at all (Def # "?") for every spelling
     [] e.ev = "spelling" -> (IF (\E i \in 1..Len(e.fs) : Def(e.p, e.fs[i]) = "?") \/ AllSame(e.answers) THEN "" ELSE "SpellingFree")
+    [] e.ev = "dispatch" -> ""            \* implementation-shaped: judged by Drift below
     [] e.ev = "instantiable" -> (IF e.isclass /\ e.instantiable /\ e.rightkind THEN "" ELSE "OriginOfCollectionIsInstantiable")
     [] OTHER -> "UNKNOWN-EVENT"
+
+\* the routine classes the real factories chose for a catalogue object vs the first matching rows of the model
+Drift(e) ==
+  IF e.ev # "dispatch" THEN ""
+  ELSE IF HandlerU(e.f) # "?" /\ ~(\E i \in 1..Len(e.us) : e.us[i] = HandlerU(e.f)) THEN "unmarshal: model " \o HandlerU(e.f) \o ", code " \o e.us[1]
+  ELSE IF HandlerM(e.f) # "?" /\ ~(\E i \in 1..Len(e.ms) : e.ms[i] = HandlerM(e.f)) THEN "marshal: model " \o HandlerM(e.f) \o ", code " \o e.ms[1]
+  ELSE IF ~HandlersPaired(e.f) THEN "tables not paired: " \o HandlerU(e.f) \o " / " \o HandlerM(e.f)
+  ELSE ""
 
 TraceInit == l = 1
 TraceNext == /\ l <= Len(Log) /\ l' = l + 1
              /\ LET c == Clause(Log[l]) IN IF c = "" THEN TRUE ELSE PrintT(ToJson([rej |-> l, clause |-> c]))
+             /\ LET d == Drift(Log[l]) IN IF d = "" THEN TRUE ELSE PrintT(ToJson([drift |-> l, what |-> d]))
 TraceSpec == TraceInit /\ [][TraceNext]_l
 Consumed == PrintT(ToJson([consumed |-> TLCGet("stats").diameter - 1]))
 =============================================================================
